@@ -102,7 +102,7 @@ theorem code_tokens_unchanged {Pat : Type} (isMatch : Pat → Bytes → Bool) (e
     (removeComments isMatch except f).code = f.code
     ∧ (removeComments isMatch except f).codeLines = f.codeLines
     ∧ (removeComments isMatch except f).comments
-        = f.comments.filter (fun c => except.any fun p => isMatch p c) := by
+        = f.comments.filter (fun c => except.any fun p => isMatch p (stripCr c)) := by
   unfold removeComments
   cases hex : except with
   | nil =>
@@ -115,7 +115,7 @@ theorem code_tokens_unchanged {Pat : Type} (isMatch : Pat → Bytes → Bool) (e
     simp only [List.isEmpty_cons, Bool.false_eq_true, ↓reduceIte]
     exact ⟨mapTokens_code _ (by intro t; rfl) f,
       mapTokens_codeLines _ (by intro t; rfl) (by intro t; rfl) f,
-      filterComments_comments (fun c => (p :: ps).any fun q => isMatch q c) f⟩
+      filterComments_comments (fun c => (p :: ps).any fun q => isMatch q (stripCr c)) f⟩
 
 /-- `remove_comments` leaves whitespace trivia alone -/
 theorem removeComments_whitespaces {Pat : Type} (isMatch : Pat → Bytes → Bool) (except : List Pat)
@@ -171,6 +171,12 @@ example : (removeComments LitPat.isMatch [⟨false, false, [107]⟩] sampleFile)
     ∧ (removeSpaces sampleFile).comments = sampleFile.comments
     ∧ sampleFile.code = [[108], [97]] := by decide
 
+/-- regression (F26): in a CRLF file the comment text is `-- x` + CR; `x$` (literal `x`, anchored at the
+end) keeps it, as in an LF file -/
+example : (removeComments LitPat.isMatch [⟨false, true, [120]⟩]
+      ⟨[⟨[97], some 1, [], [⟨.comment, [45, 45, 32, 120, 13]⟩]⟩], [], none⟩).comments = [[45, 45, 32, 120, 13]]
+    ∧ stripCr [45, 45, 32, 120] = [45, 45, 32, 120] := by decide
+
 /-! ### every carrier is filtered (the tree `impl_token_fns!` works on) -/
 
 /-- **forall positions**: a generated method that uses the same per-token operation `g` in its three
@@ -202,7 +208,7 @@ theorem code_tokens_unchanged_tree {Pat : Type} (isMatch : Pat → Bytes → Boo
     (removeCommentsTree isMatch except n).toFile = removeComments isMatch except n.toFile
     ∧ (removeCommentsTree isMatch except n).toFile.code = n.toFile.code
     ∧ (removeCommentsTree isMatch except n).toFile.comments
-        = n.toFile.comments.filter (fun c => except.any fun p => isMatch p c) := by
+        = n.toFile.comments.filter (fun c => except.any fun p => isMatch p (stripCr c)) := by
   have e : (removeCommentsTree isMatch except n).toFile = removeComments isMatch except n.toFile := by
     unfold removeCommentsTree removeComments Node.toFile
     split
